@@ -373,6 +373,122 @@ theorem filterMap_fix (o : Ops V) (L : Laws o) (hfix : ∀ v, L.inv v → o.init
     intro h
     simp [hfix v (h v List.mem_cons_self), ih (fun x hx => h x (List.mem_cons_of_mem _ hx))]
 
+/-! the change lists -/
+
+/-- `saves` and `removes` are duplicate-free, `saves` names live entries only, `removes` names
+    none of them -/
+structure Changes (s : State V) : Prop where
+  saves_nodup : s.saves.Nodup
+  saves_sub : ∀ k ∈ s.saves, k ∈ s.m.map (·.1)
+  removes_nodup : s.removes.Nodup
+  removes_disj : ∀ k ∈ s.removes, k ∉ s.m.map (·.1)
+
+theorem eraseFirst_sublist {α : Type} (p : α → Bool) : ∀ (l : List α), (eraseFirst p l).Sublist l := by
+  intro l
+  induction l with
+  | nil => exact List.Sublist.refl _
+  | cons x xs ih =>
+    unfold eraseFirst
+    split
+    · exact List.sublist_cons_self _ _
+    · exact List.Sublist.cons_cons _ ih
+
+theorem eraseFirst_not_mem (k : Key) : ∀ (l : List Key), l.Nodup → k ∉ eraseFirst (fun x => decide (k = x)) l := by
+  intro l
+  induction l with
+  | nil => intro _ h; cases h
+  | cons x xs ih =>
+    intro hnd
+    simp only [List.nodup_cons] at hnd
+    unfold eraseFirst
+    by_cases hk : k = x
+    · simp only [hk, decide_true, if_true]; exact hnd.1
+    · have hd : decide (k = x) = false := by simp [hk]
+      rw [hd]
+      simp only [Bool.false_eq_true, if_false, List.mem_cons, not_or]
+      exact ⟨hk, ih hnd.2⟩
+
+theorem changes_empty : Changes (State.empty : State V) :=
+  ⟨by simp [State.empty], by simp [State.empty], by simp [State.empty], by simp [State.empty]⟩
+
+theorem save_changes (o : Ops V) (L : Laws o) (s : State V) (v : V) (f : Bool) (_hg : Good o L s) (hc : Changes s) :
+    Changes (save o s v f).1 := by
+  unfold save
+  cases hi : o.init v with
+  | none => exact hc
+  | some nv =>
+    simp only
+    cases hl : lookup (o.key nv) s.m with
+    | none =>
+      simp only
+      have hnot := lookup_none_iff.1 hl
+      have hks : o.key nv ∉ s.saves := fun h => hnot (hc.saves_sub _ h)
+      refine ⟨?_, ?_, ?_, ?_⟩
+      · rw [List.nodup_append]
+        refine ⟨hc.saves_nodup, by simp, ?_⟩
+        intro a ha b hb; simp at hb; subst hb; intro e; subst e; exact hks ha
+      · intro k hk
+        simp only [List.map_append, List.map_cons, List.map_nil, List.mem_append, List.mem_singleton]
+        rcases List.mem_append.1 hk with h | h
+        · exact Or.inl (hc.saves_sub k h)
+        · simp at h; exact Or.inr h
+      · exact (eraseFirst_sublist _ _).nodup hc.removes_nodup
+      · intro k hk
+        have hk' := (eraseFirst_sublist _ _).subset hk
+        simp only [List.map_append, List.map_cons, List.map_nil, List.mem_append, List.mem_singleton, not_or]
+        refine ⟨hc.removes_disj k hk', ?_⟩
+        intro e; subst e
+        exact eraseFirst_not_mem _ _ hc.removes_nodup hk
+    | some old =>
+      simp only
+      have hmem : o.key nv ∈ s.m.map (·.1) := List.mem_map_of_mem (f := (·.1)) (lookup_some_mem hl)
+      have hkeys : (s.m.map (fun kv => if kv.1 = o.key nv then (kv.1, o.copyFrom kv.2 nv f) else kv)).map (·.1) = s.m.map (·.1) := by
+        rw [List.map_map]; apply List.map_congr_left; intro kv _; simp only [Function.comp]; split <;> rfl
+      split
+      · exact ⟨hc.saves_nodup, by simp only [hkeys]; exact hc.saves_sub, hc.removes_nodup, by simp only [hkeys]; exact hc.removes_disj⟩
+      · rename_i hany
+        refine ⟨?_, ?_, hc.removes_nodup, by simp only [hkeys]; exact hc.removes_disj⟩
+        · rw [List.nodup_append]
+          refine ⟨hc.saves_nodup, by simp, ?_⟩
+          intro a ha b hb; simp at hb; subst hb; intro e; subst e
+          apply hany; simp only [List.any_eq_true, decide_eq_true_eq]; exact ⟨_, ha, rfl⟩
+        · intro k hk
+          simp only [hkeys]
+          rcases List.mem_append.1 hk with h | h
+          · exact hc.saves_sub k h
+          · simp at h; subst h; exact hmem
+
+theorem del_changes (o : Ops V) (L : Laws o) (s : State V) (name : Key) (hg : Good o L s) (hc : Changes s) :
+    Changes (del o s name) := by
+  unfold del
+  simp only
+  cases hl : lookup (o.canonKey name) s.m with
+  | none => exact hc
+  | some v =>
+    simp only
+    have hmem := lookup_some_mem hl
+    have hkv : o.key v = o.canonKey name := hg.wf.keyed _ hmem
+    have hin : o.canonKey name ∈ s.m.map (·.1) := List.mem_map_of_mem (f := (·.1)) hmem
+    rw [hkv]
+    refine ⟨(eraseFirst_sublist _ _).nodup hc.saves_nodup, ?_, ?_, ?_⟩
+    · intro k hk
+      have hk' := (eraseFirst_sublist _ _).subset hk
+      rw [eraseKey_keys]
+      simp only [List.mem_filter, ne_eq, decide_eq_true_eq]
+      refine ⟨hc.saves_sub k hk', ?_⟩
+      intro e; subst e
+      exact eraseFirst_not_mem _ _ hc.saves_nodup hk
+    · rw [List.nodup_append]
+      refine ⟨hc.removes_nodup, by simp, ?_⟩
+      intro a ha b hb; simp at hb; subst hb; intro e; subst e
+      exact hc.removes_disj _ ha hin
+    · intro k hk
+      rw [eraseKey_keys]
+      simp only [List.mem_filter, ne_eq, decide_eq_true_eq, not_and]
+      rcases List.mem_append.1 hk with h | h
+      · intro h'; exact absurd h' (hc.removes_disj k h)
+      · simp at h; intro _ hne; exact hne h
+
 /-- the table file is readable and holds stored-form entries with distinct keys -/
 def DiskOK (o : Ops V) (L : Laws o) : Disk V → Prop
   | .missing => True
@@ -389,6 +505,7 @@ structure Sim (o : Ops V) (L : Laws o) (e : EntrySpec V) (dflt : List V) (sv : S
   disk_ok : DiskOK o L sv.disk
   view : restartView o dflt sv.disk = specLoad e dflt a.disk
   clean : sv.st.saves = [] → sv.st.removes = [] → restartView o dflt sv.disk = sv.st.l
+  changes : Changes sv.st
 
 structure Hyps (o : Ops V) (L : Laws o) (e : EntrySpec V) (dflt : List V) : Prop where
   refines : Refines o L e
@@ -417,7 +534,7 @@ theorem sim_fresh (o : Ops V) (L : Laws o) (e : EntrySpec V) (dflt : List V) (h 
   obtain ⟨_, hg, hd, hs, hr, hv⟩ := boot_ok o L e dflt h .missing trivial
   have hcreate : dflt.filterMap e.create = dflt.filterMap o.init := by
     congr 1; funext v; exact h.refines.create v
-  refine ⟨hg, ?_, by rw [hd]; trivial, ?_, ?_⟩
+  refine ⟨hg, ?_, by rw [hd]; trivial, ?_, ?_, ⟨by rw [hs]; simp, by rw [hs]; simp, by rw [hr]; simp, by rw [hr]; simp⟩⟩
   · have : (Server.boot o dflt .missing).1.st.l = dflt.filterMap o.init := hv
     rw [this]; simp [Abs.fresh, specLoad, hcreate]
   · rw [hd]; simp only at hv; rw [hv]; simp [Abs.fresh, specLoad, hcreate]
@@ -444,7 +561,7 @@ theorem sim_step (o : Ops V) (L : Laws o) (e : EntrySpec V) (dflt : List V) (gua
   cases op with
   | save v f =>
     simp only [Server.step, Abs.step]
-    refine ⟨save_good o L sv.st v f hs.good, ?_, hs.disk_ok, hs.view, ?_⟩
+    refine ⟨save_good o L sv.st v f hs.good, ?_, hs.disk_ok, hs.view, ?_, save_changes o L sv.st v f hs.good hs.changes⟩
     · rw [(save_list o L e h.refines sv.st v f hs.good).1, hs.cur]
     · intro h1 h2
       cases hi : o.init v with
@@ -454,7 +571,7 @@ theorem sim_step (o : Ops V) (L : Laws o) (e : EntrySpec V) (dflt : List V) (gua
       | some nv => exact absurd h1 (save_dirty o sv.st v f nv hi)
   | del name =>
     simp only [Server.step, Abs.step]
-    refine ⟨del_good o L sv.st name hs.good, ?_, hs.disk_ok, hs.view, ?_⟩
+    refine ⟨del_good o L sv.st name hs.good, ?_, hs.disk_ok, hs.view, ?_, del_changes o L sv.st name hs.good hs.changes⟩
     · rw [del_list o L e h.refines sv.st name hs.good, hs.cur]
     · intro h1 h2
       cases hl : lookup (o.canonKey name) sv.st.m with
@@ -473,7 +590,7 @@ theorem sim_step (o : Ops V) (L : Laws o) (e : EntrySpec V) (dflt : List V) (gua
       obtain ⟨_, hlen⟩ := hcond
       have h1 : sv.st.saves = [] := List.length_eq_zero_iff.1 (by omega)
       have h2 : sv.st.removes = [] := List.length_eq_zero_iff.1 (by omega)
-      refine ⟨hs.good, hs.cur, hs.disk_ok, ?_, hs.clean⟩
+      refine ⟨hs.good, hs.cur, hs.disk_ok, ?_, hs.clean, hs.changes⟩
       rw [hs.clean h1 h2, hs.cur]; rfl
     · have hf : flush guarded sv.st = ({ sv.st with saves := [], removes := [] }, some sv.st.l) := by
         simp only [flush, hcond]; rfl
@@ -491,11 +608,12 @@ theorem sim_step (o : Ops V) (L : Laws o) (e : EntrySpec V) (dflt : List V) (gua
           exact hs.good.stored kv hkv
       have hview := (boot_ok o L e dflt h _ hdisk).2.2.2.2.2
       simp only at hview
-      exact ⟨hg', hs.cur, hdisk, by rw [hview, hs.cur]; rfl, fun _ _ => hview⟩
+      exact ⟨hg', hs.cur, hdisk, by rw [hview, hs.cur]; rfl, fun _ _ => hview, ⟨by simp, by simp, by simp, by simp⟩⟩
   | restart =>
     simp only [Server.step, Abs.step]
     obtain ⟨_, hg, hd, hsv, hrm, hv⟩ := boot_ok o L e dflt h sv.disk hs.disk_ok
-    refine ⟨hg, ?_, by rw [hd]; exact hs.disk_ok, by rw [hd]; exact hs.view, fun _ _ => by rw [hd]; rfl⟩
+    refine ⟨hg, ?_, by rw [hd]; exact hs.disk_ok, by rw [hd]; exact hs.view, fun _ _ => by rw [hd]; rfl,
+      ⟨by rw [hsv]; simp, by rw [hsv]; simp, by rw [hrm]; simp, by rw [hrm]; simp⟩⟩
     exact hs.view
 
 
